@@ -33,6 +33,8 @@ type Input struct {
 	Chain []whr.Call `json:"chain"`
 	// Variant: how the model declares its soft-delete column ("" value field, ptr, embedded, named)
 	Variant string `json:"variant,omitempty"`
+	// Hist: a history run on the table (live rows + twins) after everything else
+	Hist []HOp `json:"hist,omitempty"`
 }
 
 type Obs struct {
@@ -55,6 +57,7 @@ type Obs struct {
 	UAssoc, NUAssoc               [][]int64
 	NUnscopedFind                 []int64
 	Errs                          []string `json:"errs"`
+	Hist                          HObs     `json:"hist"`
 }
 
 const liveAtom = 40
@@ -387,6 +390,7 @@ func (e *env) run(in Input) Obs {
 		o.NUnscopedFind = sorted(whr.IDsOf(dst))
 	}
 	writes(false, &o.NUpdate, nil, &o.NDel, nil, nil)
+	e.runHist(in, &o)
 	return o
 }
 
@@ -692,7 +696,7 @@ func term(in Input, o Obs) string {
 	for _, r := range in.Rows {
 		live = append(live, r.ID)
 	}
-	return lib.App("mk_case", whr.GTable(in.Atoms, o.Texts), whr.GCalls(in.Chain, byID), lib.Nat(liveAtom),
+	args := []string{whr.GTable(in.Atoms, o.Texts), whr.GCalls(in.Chain, byID), lib.Nat(liveAtom),
 		whr.GRows(o.AllIDs, o.Truth), lib.ZList(live), lib.Str(o.WhereSQL),
 		lib.ZList(o.Find), lib.ZList(o.Pluck), lib.ZList(o.RowsIDs), lib.Z(o.Count), gOZ(o.First), lib.ListOf(o.Batches, lib.ZList),
 		lib.ZList(o.NFind), lib.Z(o.NCount), gOZ(o.NFirst),
@@ -700,7 +704,8 @@ func term(in Input, o Obs) string {
 		lib.ZList(o.Del), lib.ZList(o.NDel), lib.ZList(o.DelTwins), lib.ZList(o.DelAgain),
 		lib.ZList(o.UnscopedFind), lib.ZList(o.NUnscopedFind), lib.ZList(o.UnscopedDel),
 		lib.ListOf(o.Assoc, lib.ZList), lib.ListOf(o.NAssoc, lib.ZList),
-		lib.ListOf(o.UAssoc, lib.ZList), lib.ListOf(o.NUAssoc, lib.ZList), lib.Z(int64(len(o.Errs))))
+		lib.ListOf(o.UAssoc, lib.ZList), lib.ListOf(o.NUAssoc, lib.ZList), lib.Z(int64(len(o.Errs)))}
+	return lib.App("mk_case", append(args, gHist(in, o)...)...)
 }
 
 func main() {
@@ -714,7 +719,11 @@ func main() {
 	out := lib.NewOut(a.Out, "C08")
 	out.PerFile = 60
 
+	hr := lib.NewRng(a.Seed + 7919)
 	add := func(kind string, in Input) {
+		if kind != "corpus" && kind != "replay" && in.Hist == nil && len(in.Rows) > 0 {
+			in.Hist = genHist(hr, in.Rows)
+		}
 		if kind != "corpus" && kind != "replay" {
 			byID := map[int]whr.Atom{}
 			for _, a := range in.Atoms {
